@@ -805,7 +805,7 @@ type lqOp struct {
 	From  int    `json:"from,omitempty"`
 	To    int    `json:"to,omitempty"`
 	D     int    `json:"d,omitempty"`
-	Via   string `json:"via,omitempty"` // xfer only: "send" (bank MsgSend) or "multisend" (bank MsgMultiSend); not part of the model
+	Via   string `json:"via,omitempty"` // xfer: "send" (bank MsgSend) or "multisend" (bank MsgMultiSend), not part of the model; mkvest: "msg" = by MsgConvertIntoVestingAccount (outside the model)
 	Ts    []int64 `json:"ts,omitempty"` // probe only: the block time advances through these values
 }
 
@@ -1158,6 +1158,20 @@ func lqApply(e *Env, op lqOp, pre *lqSnap) (int, error) {
 		if _, is := acc.(*vestingtypes.ClawbackVestingAccount); is {
 			return 8, errLqSetup
 		}
+		if op.Via == "msg" {
+			// the real message of x/vesting, signed by a funder of its own (outside the Coq model)
+			if op.T != 0 {
+				e.Ctx = e.Ctx.WithBlockTime(time.Unix(op.T, 0).UTC())
+			}
+			if t := lqTotal(op.Lock); t.Sign() > 0 {
+				if err := testutil.FundAccount(e.Ctx, e.App.BankKeeper, lqFunderAddr, sdk.NewCoins(sdk.NewCoin(lqDenom, math.NewIntFromBigInt(t)))); err != nil {
+					return 9, err
+				}
+			}
+			_, err := e.runMsg(vestingtypes.NewMsgConvertIntoVestingAccount(lqFunderAddr, addrN(op.A), time.Unix(op.Start, 0).UTC(),
+				lqSdkPeriods(op.Lock), lqSdkPeriods(op.Vest), false, false, nil))
+			return lqErrCode(err), err
+		}
 		for _, p := range append(append([]lqP{}, op.Lock...), op.Vest...) {
 			if p.L < 0 || p.A.Sign() < 0 {
 				return 8, errLqSetup
@@ -1278,7 +1292,13 @@ func lqApply(e *Env, op lqOp, pre *lqSnap) (int, error) {
 		if op.T != 0 {
 			e.Ctx = e.Ctx.WithBlockTime(time.Unix(op.T, 0).UTC())
 		}
-		_, err := e.runMsg(vestingtypes.NewMsgClawback(lqModAddr, addrN(op.A), lqSinkAddr))
+		funder := lqModAddr
+		if va, ok := e.App.AccountKeeper.GetAccount(e.Ctx, addrN(op.A)).(*vestingtypes.ClawbackVestingAccount); ok {
+			if f, err := sdk.AccAddressFromBech32(va.FunderAddress); err == nil {
+				funder = f
+			}
+		}
+		_, err := e.runMsg(vestingtypes.NewMsgClawback(funder, addrN(op.A), lqSinkAddr))
 		return lqErrCode(err), err
 	}
 	return 9, fmt.Errorf("bad op")
@@ -1687,7 +1707,7 @@ func lqRunHist(id string, next lqGenFn) Case {
 		if err := op.valid(); err != nil {
 			return Case{ID: id, Kind: "hist", Input: in, OracleOK: false, OracleMsg: "malformed input: " + err.Error(), Key: id}
 		}
-		if op.Op == "delegate" || op.Op == "clawback" {
+		if op.Op == "delegate" || op.Op == "clawback" || (op.Op == "mkvest" && op.Via == "msg") {
 			outOfModel = true
 			tags["outside-model-suffix"] = true
 		}
